@@ -97,6 +97,11 @@ func (c *ServiceCodec) Decode(request []byte, context *core.ServiceContext) (nam
 	}
 	count := len(req.Params)
 	parameters := method.Parameters()
+	if !method.Func().Type().IsVariadic() && count > len(parameters) {
+		// more params than the method has parameters: there is no type to decode them into
+		err = &jsonrpcError{codeInvalidParams, messageInvalidParams}
+		return
+	}
 	paramTypes := make([]reflect.Type, count)
 	if method.Func().Type().IsVariadic() {
 		n := len(parameters)
